@@ -82,6 +82,12 @@ type SrcArg struct {
 
 // SyncScenario is one transfer between real client code and real server code.
 type SyncScenario struct {
+	// Kill: the prior state of the destination is what a process kill (of
+	// both ends) at scheduler step Kill.PerMille/1000 of an earlier sync with
+	// the same source, destination and options (minus -n) would have left
+	// behind - temporary files, half-created directories and all. The judged
+	// sync then starts from that state. Honoured by C01 and semRun.
+	Kill     *KillPoint  `json:"kill,omitempty"`
 	Arr      string      `json:"arr"` // A1 pull-daemon, A2 push-daemon, A3p/A3s library pull/push, A4 local CLI
 	Src      fstree.Tree `json:"src"`
 	Dst      fstree.Tree `json:"dst"`
